@@ -8,7 +8,6 @@ namespace Sonic.Proofs.Rne
 open Sonic.Spec.Rne
 open Sonic.Model.Number
 
-set_option exponentiation.threshold 2200
 
 /-- `|a - b|` on naturals -/
 def dist (a b : Nat) : Nat := (a - b) + (b - a)
@@ -101,10 +100,11 @@ theorem grid_gap (b' t q : Nat) (hq : 2 ^ 52 ≤ q ∨ t = 0) : u b' ≤ q * 2 ^
     omega
 
 /-- the scaled quotient of `roundRat` in units of `2^-1074` -/
-theorem div_units (N D : Nat) (g : Int) (hg : -1074 ≤ g) (hD : 0 < D) :
+theorem div_units (N D : Nat) (g : Int) (hg : -1074 ≤ g) :
     (N * pL (1 - g)) / (D * pR (1 - g)) = (N * (2 ^ 1074 * 2)) / (D * 2 ^ (g + 1074).toNat) ∧
     ((N * pL (1 - g)) % (D * pR (1 - g)) = 0 ↔ (N * (2 ^ 1074 * 2)) % (D * 2 ^ (g + 1074).toNat) = 0) := by
   have hid : pL (1 - g) * 2 ^ (g + 1074).toNat = pR (1 - g) * (2 ^ 1074 * 2) := by
+    set_option exponentiation.threshold 1100 in
     rw [← Nat.pow_succ]
     unfold pL pR
     rw [← Nat.pow_add, ← Nat.pow_add]; congr 1; omega
@@ -134,5 +134,161 @@ theorem div_units (N D : Nat) (g : Int) (hg : -1074 ≤ g) (hD : 0 < D) :
       rcases Nat.mul_eq_zero.1 h2 with h | h
       · exact h
       · omega
+
+
+/-- **`roundRat` returns a nearest double, ties to even.**  `x = N/D`; values in units of `2^-1074`; the inequality
+    `|x - v(b)| ≤ |x - v(b')|` is multiplied by `D·2^1074`. -/
+theorem roundRat_nearest (N D : Nat) (hN : 0 < N) (hD : 0 < D) (b : Nat) (h : roundRat N D = some b) (b' : Nat) :
+    dist (N * 2 ^ 1074) (u b * D) ≤ dist (N * 2 ^ 1074) (u b' * D) ∧
+    (dist (N * 2 ^ 1074) (u b * D) = dist (N * 2 ^ 1074) (u b' * D) → u b' ≠ u b → b % 2 = 0) := by
+  obtain ⟨hc, hcase⟩ := roundRat_closed N D hN hD
+  obtain ⟨hu, _⟩ := u_roundRat N D hN hD b h
+  have hr := q2_range N D hN hD
+  simp only at hr
+  have hg := ulpOf_ge (floorLog2Rat N D)
+  obtain ⟨hdiv, hmod⟩ := div_units N D (ulpOf (floorLog2Rat N D)) hg
+  rw [hc] at h
+  generalize floorLog2Rat N D = e at *
+  generalize hgg : ulpOf e = g at *
+  -- the data in units of 2^-1074
+  have hst : ((N * pL (1 - g)) % (D * pR (1 - g)) != 0) = ((N * (2 ^ 1074 * 2)) % (D * 2 ^ (g + 1074).toNat) != 0) := by
+    by_cases h0 : (N * pL (1 - g)) % (D * pR (1 - g)) = 0
+    · have h1 := hmod.1 h0
+      set_option exponentiation.threshold 1100 in
+      simp [h0, h1]
+    · have h1 : ¬ ((N * (2 ^ 1074 * 2)) % (D * 2 ^ (g + 1074).toNat) = 0) := fun hh => h0 (hmod.2 hh)
+      have a1 := bne_iff_ne.2 h0
+      have a2 := bne_iff_ne.2 h1
+      rw [a1, a2]
+  rw [hdiv, hst] at hu hcase h
+  rw [hdiv] at hr
+  generalize hG : 2 ^ (g + 1074).toNat = G at *
+  have hGpos : 0 < G := by rw [← hG]; exact Nat.pow_pos (by omega)
+  generalize hY : N * (2 ^ 1074 * 2) = Y at *
+  generalize hM : D * G = M at *
+  have hMpos : 0 < M := by rw [← hM]; exact Nat.mul_pos hD hGpos
+  -- no double strictly between the neighbouring grid points
+  have hgap : u b' * D ≤ (Y / M / 2) * M ∨ (Y / M / 2 + 1) * M ≤ u b' * D := by
+    have hq : 2 ^ 52 ≤ Y / M / 2 ∨ (g + 1074).toNat = 0 := by
+      by_cases hn : g = e - 52
+      · left; have := (hr.1 hn).1; omega
+      · right; have := (hr.2 hn).1; omega
+    rcases grid_gap b' (g + 1074).toNat (Y / M / 2) hq with h1 | h1
+    · left
+      rw [hG] at h1
+      calc u b' * D ≤ Y / M / 2 * G * D := Nat.mul_le_mul_right _ h1
+        _ = Y / M / 2 * M := by rw [← hM]; ac_rfl
+    · right
+      rw [hG] at h1
+      calc (Y / M / 2 + 1) * M = (Y / M / 2 + 1) * G * D := by rw [← hM]; ac_rfl
+        _ ≤ u b' * D := Nat.mul_le_mul_right _ h1
+  have hcore := nearest_core Y M (Y / M) (Y % M) (u b' * D)
+    (by have := Nat.div_add_mod Y M; rw [Nat.mul_comm] at this; omega) (Nat.mod_lt _ hMpos) hgap
+  generalize hq' : roundQ (Y / M) (Y % M != 0) = q' at *
+  have hub : u b * D = q' * M := by rw [hu, ← hM]; ac_rfl
+  have hX : Y = 2 * (N * 2 ^ 1074) := by
+    rw [← hY]; generalize (2 : Nat) ^ 1074 = P; ac_rfl
+  have hpar : b % 2 = q' % 2 := by
+    split at h
+    · cases h
+    · simp only [Option.some.injEq] at h
+      rw [← h]
+      simp only [Nat.reducePow]
+      omega
+  rw [hub, hpar]
+  generalize N * 2 ^ 1074 = X at *
+  generalize hww : u b' * D = w at *
+  generalize q' * M = v at *
+  unfold dist at *
+  refine ⟨by omega, fun h1 h2 => hcore.2 (by omega) ?_⟩
+  intro hw
+  apply h2
+  -- equal scaled values mean equal values
+  have : u b' * D = u b * D := by rw [hww, hub, hw]
+  exact Nat.eq_of_mul_eq_mul_right hD this
+
+
+theorem u_zero : u 0 = 0 := by decide
+
+theorem pow10_mul_le (a k n : Nat) (h : a + k ≤ n) : 10 ^ a * 10 ^ k ≤ 10 ^ n := by
+  rw [← Nat.pow_add]; exact Nat.pow_le_pow_right (by omega) h
+
+theorem two_pow_lt_ten_pow : (2 : Nat) ^ 1074 * 2 < 10 ^ 401 := by decide +kernel
+
+/-- **Anchor of the oracle.**  If `round false m e = some b`, then `b` is a finite double, it is a nearest double to
+    `x = m·10^e = N/D` (`N = m·10^e⁺`, `D = 10^e⁻`): `|x - v(b)| ≤ |x - v(b')|` for every bit pattern `b'`
+    (multiplied by `D·2^1074`), and if some other value is equally near then `b` has an even significand. -/
+theorem round_nearest (m : Nat) (e : Int) (b : Nat) (h : round false m e = some b) (b' : Nat) :
+    b < 2047 * 2 ^ 52 ∧
+    dist (m * 10 ^ e.toNat * 2 ^ 1074) (u b * 10 ^ (-e).toNat) ≤ dist (m * 10 ^ e.toNat * 2 ^ 1074) (u b' * 10 ^ (-e).toNat) ∧
+    (dist (m * 10 ^ e.toNat * 2 ^ 1074) (u b * 10 ^ (-e).toNat) = dist (m * 10 ^ e.toNat * 2 ^ 1074) (u b' * 10 ^ (-e).toNat) →
+      u b' ≠ u b → b % 2 = 0) := by
+  by_cases hm : m = 0
+  · subst hm
+    have : round false 0 e = some 0 := by simp [round]
+    rw [this] at h
+    simp only [Option.some.injEq] at h
+    subst h
+    refine ⟨by decide, ?_, fun _ _ => rfl⟩
+    rw [u_zero]
+    set_option exponentiation.threshold 1100 in
+    simp [dist]
+  · rw [round_eq false m e hm] at h
+    have hD : 0 < 10 ^ (-e).toNat := Nat.pow_pos (by omega)
+    have hN : 0 < m * 10 ^ e.toNat := Nat.mul_pos (by omega) (Nat.pow_pos (by omega))
+    split at h
+    · cases h
+    · split at h
+      · -- far below half of the smallest subnormal: the answer is 0
+        rename_i hsmall
+        simp only [Bool.false_eq_true, if_false, Option.some.injEq] at h
+        subst h
+        refine ⟨by decide, ?_, fun _ _ => rfl⟩
+        rw [u_zero, Nat.zero_mul]
+        have he : e.toNat = 0 := by have := dl_pos m; omega
+        rw [he, Nat.pow_zero, Nat.mul_one]
+        -- 2·m·2^1074 < D
+        have h1 : m < 10 ^ dl m := lt_pow_dl m
+        have h2 : 10 ^ dl m * 10 ^ 401 ≤ 10 ^ (-e).toNat := pow10_mul_le (dl m) 401 _ (by omega)
+        have h3 : m * (2 ^ 1074 * 2) < 10 ^ dl m * 10 ^ 401 :=
+          Nat.mul_lt_mul'' h1 two_pow_lt_ten_pow
+        have h4 : m * (2 ^ 1074 * 2) = 2 * (m * 2 ^ 1074) := by
+          generalize (2 : Nat) ^ 1074 = P; ac_rfl
+        rw [h4] at h3
+        generalize m * 2 ^ 1074 = X at *
+        generalize 10 ^ (-e).toNat = D at *
+        unfold dist
+        rcases Nat.eq_zero_or_pos (u b') with h0 | h0
+        · rw [h0, Nat.zero_mul]; omega
+        · have : D ≤ u b' * D := Nat.le_mul_of_pos_left _ h0
+          omega
+      · simp only [Bool.false_eq_true, if_false, map_add_zero] at h
+        have hn := roundRat_nearest _ _ hN hD b h b'
+        exact ⟨roundRat_lt _ _ hN hD b h, hn.1, hn.2⟩
+
+
+/-! ## the value of a bit pattern, read off the IEEE-754 fields (used to state the anchor theorem) -/
+
+/-- `|a - b|` on naturals -/
+def absDiff (a b : Nat) : Nat := (a - b) + (b - a)
+
+/-- The value of a non-negative binary64 bit pattern as the fraction `(value bits).1 / (value bits).2`, read off
+    the IEEE-754 fields: biased exponent `E = bits / 2^52 % 2048`, fraction `F = bits % 2^52`;
+    `E = 0` (zero, subnormal): `F · 2^-1074`; otherwise `(2^52 + F) · 2^(E - 1075)`.
+    The denominator is always `2^1074`. -/
+def value (bits : Nat) : Nat × Nat :=
+  (if bits / 2 ^ 52 % 2048 = 0 then bits % 2 ^ 52
+   else (2 ^ 52 + bits % 2 ^ 52) * 2 ^ (bits / 2 ^ 52 % 2048 - 1), 2 ^ 1074)
+
+theorem value_eq_u (b : Nat) : (value b).1 = u b := by
+  unfold value u decodeF64
+  simp only
+  split
+  · have : ((-1074 : Int) + 1074).toNat = 0 := by decide
+    rw [this, Nat.pow_zero, Nat.mul_one]
+  · rename_i hE
+    have : (((b / 2 ^ 52 % 2048 : Nat) : Int) - 1075 + 1074).toNat = b / 2 ^ 52 % 2048 - 1 := by omega
+    rw [this]
+
 
 end Sonic.Proofs.Rne
